@@ -7,7 +7,7 @@ echo "|---|---|---|---|" >> $out
 for d in ${SEEDED_GLOB:-seeded/C??_?}; do
   id=$(basename $d); P=${id%_*}
   git -C /repo apply /verif/$d/patch.diff || { echo "| $id | $P | PATCH-FAILED | |" >> $out; continue; }
-  res=$(./check $P 2>&1 | grep -v Warning | head -2 | tr '\n' ' ' | cut -c1-260 | tr '|' '/')
+  res=$(./check $P 2>/dev/null | head -2 | tr '\n' ' ' | cut -c1-260 | tr '|' '/')
   rc=$(echo "$res" | grep -c VIOLATION)
   rp=$(echo "$res" | grep -o 'replay=[^ ]*' | head -1 | cut -d= -f2)
   if [ -n "$rp" ] && [ -f "$rp" ]; then
